@@ -1,3 +1,7 @@
 import Photon.Properties.C13
 open Photon.Http
-#print axioms untilChar_length
+#print axioms hexOf_spec
+#print axioms findSub_CRLF
+#print axioms C13_chunked_roundtrip
+#print axioms C13_chunked_inside_input
+#print axioms C13_length_body
